@@ -742,6 +742,13 @@ class BaseConnector:
                 if traces:
                     for trace in traces:
                         await trace.send_connection_queued_end()
+            except BaseException:
+                if fut.done() and not fut.cancelled():
+                    # We were woken up for a free slot but will not use it
+                    # (cancelled or failed in between): hand the wake-up on,
+                    # otherwise the next waiter sleeps although a slot is free.
+                    self._release_waiter()
+                raise
             finally:
                 # pop the waiter from the queue if its still
                 # there and not already removed by _release_waiter
